@@ -25,6 +25,7 @@ import TFV.Properties.Src.BinKernels2
 #print axioms TFV.SrcTie.C06_src_two_point_crossover
 #print axioms TFV.SrcTie.C06_src_uniform_crossover
 #print axioms TFV.SrcTie.C06_src_one_point_prefix_suffix
+#print axioms TFV.SrcTie.C06_src_two_point_distinct
 #print axioms TFV.SrcTie.C06_src_flip_binary
 #print axioms TFV.SrcTie.C06_src_uniform_proportional_crossover
 #print axioms TFV.SrcTie.C06_src_uniform_rank_crossover
